@@ -311,7 +311,7 @@ func (s *Scanner) skipQuote(quote rune) error {
 	var (
 		pos     = s.pos
 		// Backslash escapes are not supported in quoted identifiers (e.g. `a\`).
-		escaped = s.BackslashEscapes && quote != '`' || s.EscapedStringExt && s.pos > 0 && (s.input[s.pos-1] == 'E' || s.input[s.pos-1] == 'e')
+		escaped = s.BackslashEscapes && quote != '`' || s.EscapedStringExt && s.pos > 1 && (s.input[s.pos-2] == 'E' || s.input[s.pos-2] == 'e')
 	)
 	for {
 		switch r := s.next(); {
